@@ -137,7 +137,12 @@ pub fn run(ctx: &Ctx) {
             if r.chance(3, 4) { extra.push(("persistence_directory", format!("\"{}\"", persist))); }
         }
         if r.chance(1, 4) { extra.push(("interface", r.pick(&["0.0.0.0", "127.0.0.1", "10.1.2.3"]).to_string())); }
-        case(&mut out, &base(extra), &dir);
+        // the order of the keys of a YAML mapping (and of setting variables) carries no meaning: shuffle it
+        let mut v = base(extra);
+        if r.chance(2, 3) {
+            for a in (1..v.len()).rev() { let b = r.below(a as u64 + 1) as usize; v.swap(a, b); }
+        }
+        case(&mut out, &v, &dir);
     }
     // one out-of-range / invalid setting in the company of other (valid) settings: a later, passing
     // validation step must not mask an earlier refusal
@@ -203,4 +208,118 @@ pub fn replay_one(out: &mut Out, args: &[&str]) {
         args[0].split(';').map(|kv| { let (k, v) = kv.split_once('=').unwrap(); (k.to_string(), v.to_string()) }).collect()
     };
     case(out, &entries, &dir);
+}
+
+
+// ---------------------------------------------------------------------------------------------
+// C20: nothing the configuration loaders log (at any level) or report contains the seed
+
+/// `rvh cfgleakprobe <FILE|ENV> <level> <seed hex>` — runs inside the child process: loads and validates the
+/// configuration and derives the long-term key under a capturing logger, then scans every record
+/// and the error text for the secret patterns
+pub fn leak_probe(arg: &str, level: &str, seed_hex: &str) {
+    use crate::rig::{capture, install_logger, set_level, take_records};
+    use crate::wire::{leak_scan, secret_patterns};
+    install_logger();
+    set_level(level);
+    capture(true);
+    let arg2 = arg.to_string();
+    let r = std::panic::catch_unwind(move || {
+        match make_config(&arg2) {
+            Ok(c) => {
+                let valid = is_valid_config(c.as_ref());
+                if valid {
+                    if let Ok(seed) = roughenough::kms::load_seed(c.as_ref()) {
+                        let ltk = roughenough::key::LongTermKey::new(&seed);
+                        return format!("loaded {}", ltk);
+                    }
+                }
+                format!("valid={}", valid)
+            }
+            // the server binary prints the error
+            Err(e) => format!("error {:?}", e),
+        }
+    });
+    let mut text = take_records().join("\n");
+    capture(false);
+    let nrec = text.lines().count();
+    text.push_str(&match r { Ok(s) => s, Err(_) => "panic".to_string() });
+    let pats = secret_patterns(&unhex(seed_hex));
+    let leak = leak_scan(&pats, text.as_bytes()).unwrap_or("0".into());
+    println!("leak={} bytes={} records={}", leak, text.len(), nrec);
+}
+
+fn leak_case(out: &mut Out, file_mode: bool, seedcase: &str, level: &str, variant: &str, rev: bool, seed: &[u8], n: u64) {
+    let dir = std::env::var("RVH_RUNDIR").unwrap_or_else(|_| "/verif/.build".into());
+    let exe = std::env::current_exe().unwrap();
+    let hx = hex(seed);
+    let seed_text: String = match seedcase {
+        "lower" => hx.clone(),
+        "upper" => hx.to_uppercase(),
+        _ => hx.chars().enumerate().map(|(i, c)| if (i / 3) % 2 == 0 { c.to_ascii_uppercase() } else { c }).collect(),
+    };
+    let mut entries: Vec<(String, String)> = vec![
+        ("port".into(), "8686".into()), ("interface".into(), "127.0.0.1".into()), ("seed".into(), seed_text),
+    ];
+    match variant {
+        "bad-batch" => entries.push(("batch_size".into(), "200".into())),
+        "unknown-key" => entries.push(("no_such_setting".into(), "17".into())),
+        "bad-int" => entries.push(("status_interval".into(), "abc".into())),
+        "stats-no-dir" => entries.push(("client_stats".into(), "\"on\"".into())),
+        _ => {}
+    }
+    if rev { entries.reverse(); }
+    let mut cmd = Command::new(&exe);
+    cmd.arg("cfgleakprobe");
+    for (_, e) in KEYS.iter() { cmd.env_remove(e); }
+    cmd.env("RUST_BACKTRACE", "0");
+    let path = format!("{}/cfgleak-{}-{}.yaml", dir, std::process::id(), n);
+    if file_mode {
+        let body: String = entries.iter().map(|(k, v)| format!("{}: {}\n", k, v)).collect();
+        std::fs::write(&path, body).unwrap();
+        cmd.arg(&path);
+    } else {
+        cmd.arg("ENV");
+        for (k, v) in &entries {
+            if let Some((_, e)) = KEYS.iter().find(|(f, _)| f == k) { cmd.env(e, v.trim_matches('"')); }
+        }
+    }
+    cmd.arg(level).arg(&hx);
+    let o = cmd.stdin(Stdio::null()).output().unwrap();
+    let _ = std::fs::remove_file(&path);
+    let so = String::from_utf8_lossy(&o.stdout).trim().to_string();
+    // the child's stderr (panic messages) is part of what the process emits
+    let pats = crate::wire::secret_patterns(seed);
+    let imp = match crate::wire::leak_scan(&pats, &o.stderr) {
+        Some(w) => format!("leak=stderr:{} bytes={} records=0", w, o.stderr.len()),
+        None => if so.starts_with("leak=") { so } else { format!("leak=? bytes=0 records=0 raw={}", so.replace(' ', "_")) },
+    };
+    let scenario = format!("cfgload:{}:{}:{}:{}:{}", if file_mode { "file" } else { "env" }, seedcase, level, variant, if rev { "rev" } else { "fwd" });
+    out.case("cfgleak", &[&scenario, &hx], &imp);
+}
+
+pub fn replay_leak(out: &mut Out, args: &[&str]) {
+    let p: Vec<&str> = args[0].split(':').collect();
+    leak_case(out, p[1] == "file", p[2], p[3], p[4], p.get(5) == Some(&"rev"), &unhex(args[1]), 0);
+}
+
+pub fn run_leak(ctx: &Ctx) {
+    let mut out = Out::sharded(ctx.shard);
+    let mut r = Rng::new(ctx.seed ^ 0xC20C);
+    let mut n = 0u64;
+    for file_mode in [true, false] {
+        for seedcase in ["lower", "upper", "mixed"] {
+            for level in ["off", "error", "warn", "info", "debug", "trace"] {
+                for variant in ["valid", "bad-batch", "unknown-key", "bad-int", "stats-no-dir"] {
+                    n += 1;
+                    if !out.mine() { out.skip(); continue; }
+                    if !ctx.thorough && (n % 2 == 0) && level != "trace" && level != "debug" { out.skip(); continue; }
+                    let seed = r.bytes(32);
+                    let rev = r.chance(1, 2);
+                    leak_case(&mut out, file_mode, seedcase, level, variant, rev, &seed, n);
+                }
+            }
+        }
+    }
+    out.flush();
 }
